@@ -654,7 +654,7 @@ func vkEqual(a, b []string) bool {
 
 func keysCaseCount(e vEnv) int64 {
 	if e.Tier == "thorough" {
-		return 5000000
+		return 15000000
 	}
 	return 120000
 }
